@@ -10,7 +10,7 @@ vstr vstr_tmpbuf;
 static inline const char* vstr_c_str_tmp(vstr s) { vstr_tmpbuf = s; return vstr_tmpbuf.d; }
 
 #include "gen_types.h"
-#include "spec.h"
+#include "sym_spec.h"
 
 /* ---------------- ghost state ---------------- */
 symbol_t g_crc; size_t g_n;           /* calcCrc: lock-step fold of the spec over the escaped sequence */
@@ -49,10 +49,8 @@ static inline void g_hex_step(const vstr* str, size_t i, symbol_t value) {
 }
 
 /* ---------------- contracts ---------------- */
-void SymbolString_updateCrc(symbol_t value, symbol_t* crc)
-__CPROVER_requires(__CPROVER_is_fresh(crc, sizeof(*crc)))
-__CPROVER_assigns(*crc)
-__CPROVER_ensures(*crc == spec_crc_step(__CPROVER_old(*crc), value));
+#include "ss_contracts.h"
+#include "sym_contracts.h"
 
 symbol_t SymbolString_calcCrc(const SymbolString* self)
 __CPROVER_requires(__CPROVER_is_fresh(self, sizeof(*self)) && self->m_data.n <= SS_CAP)
@@ -60,45 +58,6 @@ __CPROVER_requires(g_n == 0 && g_crc == 0)
 __CPROVER_assigns(g_crc, g_n)
 __CPROVER_ensures(g_n == self->m_data.n)                 /* every symbol folded exactly once, in order */
 __CPROVER_ensures(__CPROVER_return_value == g_crc);      /* result == fold of the spec step over the escaped sequence */
-
-unsigned int getMasterPartIndex(symbol_t bits)
-__CPROVER_requires(1)
-__CPROVER_assigns()
-__CPROVER_ensures(__CPROVER_return_value == spec_part_index(bits));
-
-_Bool isMaster(symbol_t addr)
-__CPROVER_requires(1)
-__CPROVER_assigns()
-__CPROVER_ensures(__CPROVER_return_value == spec_is_master(addr));
-
-_Bool isSlaveMaster(symbol_t addr)
-__CPROVER_requires(1)
-__CPROVER_assigns()
-__CPROVER_ensures(__CPROVER_return_value == spec_is_master((symbol_t)(addr - 5)));
-
-_Bool isValidAddress(symbol_t addr, _Bool allowBroadcast)
-__CPROVER_requires(1)
-__CPROVER_assigns()
-__CPROVER_ensures(__CPROVER_return_value == (addr != 0xAA && addr != 0xA9 && (allowBroadcast || addr != 0xFE)));
-
-symbol_t getSlaveAddress(symbol_t addr)
-__CPROVER_requires(1)
-__CPROVER_assigns()
-__CPROVER_ensures(spec_is_master(addr) ==> __CPROVER_return_value == (symbol_t)(addr + 5))
-__CPROVER_ensures(!spec_is_master(addr) && addr != 0xAA && addr != 0xA9 && addr != 0xFE ==> __CPROVER_return_value == addr)
-__CPROVER_ensures(addr == 0xAA || addr == 0xA9 || addr == 0xFE ==> __CPROVER_return_value == 0xAA);
-
-symbol_t getMasterAddress(symbol_t addr)
-__CPROVER_requires(1)
-__CPROVER_assigns()
-__CPROVER_ensures(spec_is_master(addr) ==> __CPROVER_return_value == addr)
-__CPROVER_ensures(!spec_is_master(addr) && spec_is_master((symbol_t)(addr - 5)) ==> __CPROVER_return_value == (symbol_t)(addr - 5))
-__CPROVER_ensures(!spec_is_master(addr) && !spec_is_master((symbol_t)(addr - 5)) ==> __CPROVER_return_value == 0xAA);
-
-unsigned int getMasterNumber(symbol_t addr)
-__CPROVER_requires(1)
-__CPROVER_assigns()
-__CPROVER_ensures(__CPROVER_return_value == spec_master_number(addr));
 
 unsigned int parseInt(const char* str, int base, unsigned int minValue, unsigned int maxValue,
     result_t* result, size_t* length, _Bool allowIncomplete)
@@ -220,6 +179,19 @@ void h_parseHexEscaped(void) {
   if (r == RESULT_OK) { CANARY("parseHexEscaped returns OK"); }
   if (r == RESULT_ERR_ESC) { CANARY("parseHexEscaped returns ERR_ESC"); }
 }
+#define H_SS(name, call) void h_ss_##name(void) { SymbolString s; size_t index = nondet_size(); symbol_t value = nondet_sym(); call; CANARY(#name " returns"); }
+H_SS(at_nc, SymbolString_at_nc(&s, index))
+H_SS(at_nc_inb, SymbolString_at_nc_inb(&s, index))
+H_SS(at, SymbolString_at(&s, index))
+H_SS(push_back, SymbolString_push_back(&s, value))
+H_SS(size, SymbolString_size(&s))
+H_SS(clear, SymbolString_clear(&s))
+H_SS(adjustHeader, SymbolString_adjustHeader(&s))
+H_SS(getDataSize, SymbolString_getDataSize(&s))
+H_SS(getCalculatedDataSize, SymbolString_getCalculatedDataSize(&s))
+H_SS(dataAt, SymbolString_dataAt(&s, index))
+H_SS(dataAt_nc, SymbolString_dataAt_nc(&s, index))
+H_SS(isComplete, SymbolString_isComplete(&s))
 void h_parseHex(void) {
   SymbolString s; vstr str; g_k = nondet_size();
   g_n0 = s.m_data.n; g_n = 0;
